@@ -99,3 +99,17 @@ class Neutral:
             recorder.set_modulus(modulus)
         recorder.reset()
         return was
+
+
+def pyflags():
+    """interpreter options that a child script inherits from this worker (python -O / -OO strip assert statements and docstrings)"""
+    import sys
+    return ["-" + "O" * sys.flags.optimize] if sys.flags.optimize else []
+
+
+def spread_pyflags(jobs):
+    """every fourth job under -O, every eighth under -OO: a user may run any script that way"""
+    for i, j in enumerate(jobs):
+        if i % 4 == 1:
+            j["pyflags"] = ["-OO"] if i % 8 == 5 else ["-O"]
+    return jobs
